@@ -3,7 +3,7 @@
 Proof half: OPM.Properties.C35 — the aggregated log is, for every input and every batching, exactly one entry per
 maximal run of consecutive entries with equal (message, severity), carrying the run's latest time and the number
 of strictly-later deliveries; consequences: order kept, no entry lost, accounting, redelivery idempotent.
-Tie half: `AggregatedErrorLog.aggregate_with` / `clear` (direct) and `handle_ErrorLogMsg` + run start/stop (through
+Tie half: `AggregatedErrorLog.aggregate_with` / `clear` (direct) and `handle_ErrorLogMsg` + run stop/start + disconnect/register (through
 the aggregator's message handlers) against the Lean model, op by op, on exhaustive small scopes and generated
 engine-like histories (bursts, equal times, redelivered batches / suffixes, interleavings, earlier times).
 """
@@ -12,7 +12,7 @@ from __future__ import annotations
 import itertools
 from fractions import Fraction
 
-from vp.core import Check, Failure, enc, load_corpus
+from vp.core import Check, Failure, dec, enc, load_corpus
 
 META = dict(
     level_text="Lean 4 theorems over all entry lists and all batchings: the aggregated error log equals, in order, one "
@@ -27,7 +27,13 @@ META = dict(
                "finite float (modelled as a rational; NaN/inf excluded). Not claimed (and not the case, see the last "
                "example of the Lean file): a redelivered batch that interleaves two different (message, severity) keys is "
                "appended again rather than recognised — the property text speaks about consecutive entries only. An entry "
-               "with the key of the latest one and an *earlier* time is treated like a duplicate (not counted).",
+               "with the key of the latest one and an *earlier* time is treated like a duplicate (not counted). Scope: the "
+               "aggregation law within one lifetime of the log (one EngineData, from empty / cleared to the next clear). That a "
+               "run start/stop clears the log (EngineData.reset_run) and that an engine reconnect starts with an empty log "
+               "(engine_disconnected deletes the EngineData; _try_restore_reconnected_engine_data restores run id and "
+               "contributors, not error_log — so the RecentRunErrorLog of a run that saw a reconnect lacks the entries "
+               "aggregated before it) are modelled and compared in the handler stream but are not demanded by the oracle: "
+               "the property text does not speak about them (the loss at a reconnect belongs to C28, run survives reconnects).",
     technique="Lean 4 proof (fold = per-run summary, induction over the entry list) + differential correspondence",
 )
 MODULE = "OPM.Properties.C35"
@@ -53,7 +59,7 @@ def lines_of(case, op_name="agg") -> list[str]:
         if op[0] == "agg":
             out.append(f"{op_name}\t" + (";".join(_entry_wire(e) for e in op[1]) if op[1] else "-"))
         else:
-            out.append("clear")
+            out.append(op[0])          # clear | reconnect
     return out
 
 
@@ -77,25 +83,38 @@ def impl_direct(case) -> list[str]:
         if op[0] == "agg":
             log.aggregate_with(PM.ErrorLog(entries=[PM.ErrorLogEntry(message=m, severity=s, created_time=t / 8)
                                                     for (m, s, t) in op[1]]))
-        else:
+        elif op[0] == "clear":
             log.clear()
+        else:                       # reconnect: the new EngineData gets a new, empty log
+            log = AM.AggregatedErrorLog.empty()
         out.append(_show_log(log.entries))
     return out
 
 
+dropped_at_reconnect = [0]     # observation (outside C35's statement): aggregated entries gone with the old EngineData
+
+
 def impl_handlers(case) -> list[str]:
+    """the same history through the aggregator: the engine is registered and in a run; `clear` = the run stops and the
+    next one starts (EngineData.reset_run clears the log both times); `reconnect` = connection lost + re-registration"""
     from harness.agg_common import AggHarness
     h = AggHarness()
     h.register()
-    out = []
     k = 0
+    h.run_started(f"run{k}")
+    out = []
     for op in case["ops"]:
         if op[0] == "agg":
             h.error_log([(m, s, t / 8) for (m, s, t) in op[1]])
-        else:                       # a run ends: EngineData.reset_run() clears the error log
+        elif op[0] == "clear":
+            h.run_stopped(f"run{k}")
             k += 1
             h.run_started(f"run{k}")
-            h.run_stopped(f"run{k}")
+        else:
+            before = len(h.engine_data().error_log.entries)
+            h.disconnect()
+            h.register()
+            dropped_at_reconnect[0] += 1 if before > len(h.engine_data().error_log.entries) else 0
         out.append(_show_log(h.engine_data().error_log.entries))
     return out
 
@@ -114,15 +133,18 @@ def _parse_log(s: str):
 
 
 def oracle(case, impl_out: list[str]) -> list[Failure]:
+    """The aggregation law over one lifetime of the log.  At a `clear` / `reconnect` the oracle demands nothing
+    (the property text does not say that a run stop or a reconnect empties the log): it takes whatever log the
+    implementation shows afterwards as the carried-over state and judges the aggregation from there."""
     fails: list[Failure] = []
-    seg: list = []          # entries delivered since the last clear
+    # items delivered into the current log: [message, severity, time, weight]; weight = 1 for a delivered entry,
+    # = occurrences for an aggregated entry carried over a clear / reconnect
+    seg: list = []
     for op, shown in zip(case["ops"], impl_out):
-        if op[0] == "clear":
-            seg = []
-            if shown != "-":
-                fails.append(Failure("clear-leaves-entries", case, f"log after clear: {shown}"))
+        if op[0] != "agg":
+            seg = [[dec(m), sev, t, occ] for (m, sev, t, occ) in _parse_log(shown)]
             continue
-        seg = seg + [list(e) for e in op[1]]
+        seg = seg + [[e[0], e[1], Fraction(e[2]), 1] for e in op[1]]
         runs = [list(g) for _, g in itertools.groupby(seg, key=lambda e: (e[0], e[1]))]
         out = _parse_log(shown)
         want_keys = [enc(r[0][0]) + "|" + str(r[0][1]) for r in runs]
@@ -133,20 +155,22 @@ def oracle(case, impl_out: list[str]) -> list[Failure]:
             return fails
         for r, (m, sev, t, occ) in zip(runs, out):
             times = [Fraction(e[2]) for e in r]
+            total = sum(e[3] for e in r)
+            carried = any(e[3] != 1 for e in r)
             inc = all(a < b for a, b in zip(times, times[1:]))
             nondec = all(a <= b for a, b in zip(times, times[1:]))
             if inc:
-                if occ != len(r):
-                    fails.append(Failure("increasing-run-miscounted", case, f"run {r}: occurrences {occ} != {len(r)}"))
+                if occ != total:
+                    fails.append(Failure("increasing-run-miscounted", case, f"run {r}: occurrences {occ} != {total}"))
                 if t != times[-1]:
                     fails.append(Failure("increasing-run-wrong-time", case, f"run {r}: time {t} != latest {times[-1]}"))
-            elif nondec:
+            elif nondec and not carried:
                 if occ != len(set(times)):
                     fails.append(Failure("equal-time-redelivery-miscounted", case,
                                          f"run {r}: occurrences {occ} != distinct times {len(set(times))}"))
                 if t != times[-1]:
                     fails.append(Failure("nondecreasing-run-wrong-time", case, f"run {r}: time {t} != latest {times[-1]}"))
-            elif not (1 <= occ <= len(r)):
+            elif not (1 <= occ <= total):
                 fails.append(Failure("occurrences-out-of-range", case, f"run {r}: occurrences {occ}"))
     return fails
 
@@ -197,7 +221,12 @@ def gen_history(ctx: Check, malformed: bool) -> dict:
             ctx.count("op:clear")
             prev = []
             continue
-        if r < 0.30 and prev:
+        if r < 0.13:
+            ops.append(["reconnect"])
+            ctx.count("op:reconnect")
+            prev = []
+            continue
+        if r < 0.33 and prev:
             cut = rng.randrange(0, len(prev))
             batch = [list(e) for e in prev[cut:]]        # redelivery of the previous batch or a suffix of it
             ctx.count("batch:redelivered")
@@ -229,7 +258,7 @@ def nontrivial(case, out) -> bool:
     """some aggregated entry merged at least two deliveries, or a redelivery was dropped"""
     n_in = 0
     for op, shown in zip(case["ops"], out):
-        n_in = 0 if op[0] == "clear" else n_in + len(op[1])
+        n_in = 0 if op[0] != "agg" else n_in + len(op[1])
         log = _parse_log(shown)
         if any(occ > 1 for (_, _, _, occ) in log) or sum(occ for (_, _, _, occ) in log) < n_in:
             return True
@@ -238,10 +267,10 @@ def nontrivial(case, out) -> bool:
 
 def run(ctx: Check) -> int:
     ctx.prove(MODULE, REQUIRED)
-    ctx.rule = ("cases = sequences of aggregate_with(batch) / clear calls. Exhaustive: every entry sequence up to length "
+    ctx.rule = ("cases = sequences of aggregate_with(batch) / clear / reconnect (a new, empty log) calls. Exhaustive: every entry sequence up to length "
                 "3 (quick) / 4 (thorough) over 9 symbols = 3 (message, severity) keys x 3 times, cut into batches at random "
                 "places, plus samples of the next length. Generated: engine-like histories (advancing clock, bursts, "
-                "equal-time repeats, redelivered batches and suffixes, interleaved keys, earlier times, clear), 15 % with "
+                "equal-time repeats, redelivered batches and suffixes, interleaved keys, earlier times, clear, reconnect), 15 % with "
                 "boundary values (empty / long / unicode messages, negative and 2^40 severities, negative and 2^45 times). "
                 "Non-trivial = some entry merged >= 2 deliveries or a delivery was dropped as duplicate.")
     corpus = load_corpus(ctx.id)
@@ -261,6 +290,8 @@ def run(ctx: Check) -> int:
     for c, o in list(zip(direct, out)) + list(zip(via, out2)):
         for f in oracle(c, o):
             ctx.fail(f)
+    ctx.extra["outside_scope_observed"] = (f"{dropped_at_reconnect[0]} reconnects in the handler stream dropped aggregated "
+                                           f"entries: the re-registration creates a new EngineData whose error log starts empty")
     ctx.exhaustive = True
     ctx.extra["exhaustive_scope"] = (f"all entry sequences of length <= {ctx.n(3, 4)} over 9 symbols (correspondence "
                                      f"and oracle); everything longer is sampled")
